@@ -26,6 +26,8 @@ struct Case {
   threads: bool,
   /// script step before which source i is subscribed (0 / missing: at the start); every source is built at t = 0
   sub_at: Vec<usize>,
+  /// length of one tick in ns (1 unless the case has no hour-scale source: then sometimes 0.7 s or 1 s + 1 ns)
+  unit: u64,
 }
 
 fn gen_stream(c: &mut dyn Choices, result: bool) -> Vec<SEv> {
@@ -109,7 +111,10 @@ fn gen_case(c: &mut dyn Choices) -> Case {
       sub_at.push(if matches!(s, TSrc::Interval(_) | TSrc::IntervalAt(..) | TSrc::Timer(..) | TSrc::TimerAt(..)) { c.pick(len) } else { 0 });
     }
   }
-  Case { srcs, script, mode, threads, sub_at }
+  // (appended pick) a quarter of the cases without hour-scale instants measure time in units of 0.7 s or 1 s + 1 ns
+  let at_free = !srcs.iter().any(|s| matches!(s, TSrc::IntervalAt(..) | TSrc::TimerAt(..)));
+  let unit = if at_free { *c.one_of(&[1u64, 1, 1, 1, 1, 1, 700_000_000, 1_000_000_001]) } else { 1 };
+  Case { srcs, script, mode, threads, sub_at, unit }
 }
 
 fn check_src(case: &Case, idx: usize, src: &TSrc, recs: &[Rec], stats: (usize, usize), req: &[u64], step_times: &[u64]) -> Result<(), (String, String)> {
@@ -331,6 +336,7 @@ fn completeness(case: &Case, idx: usize, src: &TSrc, recs: &[Rec], total_advance
 fn run_case(c: &mut dyn Choices, ctx: &Ctx) -> Outcome {
   let case = gen_case(c);
   let res = guarded_strict(|| {
+    crate::vtime::set_unit(case.unit);
     if case.threads {
       crate::threads::exec_sources(&case.srcs, &case.script, case.mode, &case.sub_at).into_iter().map(|t| (t.recs, (t.stats.polls, t.stats.polls_after_end), t.requested_at_subscribe, t.step_times, t.sub_time)).collect::<Vec<_>>()
     } else {
@@ -368,7 +374,7 @@ fn run_case(c: &mut dyn Choices, ctx: &Ctx) -> Outcome {
         } else {
           // subscribed before step k at t = sub_time: seen from its subscription the source lives in the rest of the
           // script - same oracle, times relative to the subscription
-          let view = Case { srcs: case.srcs.clone(), script: case.script[k..].to_vec(), mode: case.mode, threads: case.threads, sub_at: vec![] };
+          let view = Case { srcs: case.srcs.clone(), script: case.script[k..].to_vec(), mode: case.mode, threads: case.threads, sub_at: vec![], unit: case.unit };
           let rel: Vec<Rec> = recs.iter().map(|r| Rec { ev: r.ev.clone(), step: r.step, vt: r.vt.saturating_sub(*sub_time) }).collect();
           let st_rel: Vec<u64> = st[k..].iter().map(|t| t.saturating_sub(*sub_time)).collect();
           if recs.iter().any(|r| r.vt < *sub_time) {
@@ -388,7 +394,7 @@ fn run_case(c: &mut dyn Choices, ctx: &Ctx) -> Outcome {
   let desc = if ctx.want_desc || matches!(verdict, Verdict::Violation { .. }) {
     Some(json!({
       "sources": case.srcs.iter().map(|s| format!("{s:?}")).collect::<Vec<_>>(),
-      "clock_script": script_short(&case.script), "subscribed_before_step(0 = at the start)": case.sub_at, "executor": format!("{:?}", case.mode), "build": if case.threads {"threads"} else {"local"},
+      "clock_script": script_short(&case.script), "tick_ns": case.unit, "subscribed_before_step(0 = at the start)": case.sub_at, "executor": format!("{:?}", case.mode), "build": if case.threads {"threads"} else {"local"},
       "delivered": res.as_ref().map(|t| json!(t.iter().map(|(r,_,_,_,_)| r.iter().map(|x| format!("{}@t={}", ev_short(&x.ev), x.vt)).collect::<Vec<_>>()).collect::<Vec<_>>())).unwrap_or_else(|m| json!({"panic": m})),
     }))
   } else {
